@@ -5,6 +5,10 @@ import (
 	"math"
 	"runtime"
 	"strconv"
+	"sync/atomic"
+	"time"
+
+	simplefixgo "github.com/b2broker/simplefix-go"
 
 	"github.com/b2broker/simplefix-go/session"
 	"github.com/b2broker/simplefix-go/utils"
@@ -165,6 +169,78 @@ func initiatorRelogon(c *vk.Ctx) {
 			if a, b := fixref.GetS(first, tag), fixref.GetS(logons[0].Fields, tag); a != b {
 				c.Violate("C06/initiator-logon-fields/second-logon", fmt.Sprintf("%s: the second Logon carries %s=%q, the first (configured) one carried %q", desc, tag, b, a), replay)
 				return
+			}
+		}
+	})
+}
+
+// failedLocalLogout: the application calls Logout (or Stop) on a session that is not logged on — it is waiting for a
+// Logon, or a Logout exchange has just ended — and that Logout cannot be sent (an outgoing handler refuses it, or
+// the counter store fails once). Whatever happens to the Logout, the session does not report itself logged on:
+// nobody sent a Logon.
+func failedLocalLogout(c *vk.Ctx) {
+	n := c.Pick(16, 160)
+	vk.Parallel(n, runtime.NumCPU(), func(i int) {
+		role := rig.Role(i % 2)
+		fault := []string{"type-handler-refuses", "counter-store-fails-once"}[(i/2)%2]
+		via := []string{"Logout", "Stop"}[(i/4)%2]
+		after := []string{"before-any-logon", "after-a-logout-exchange"}[(i/8)%2]
+		desc := fmt.Sprintf("%s: Session.%s %s while %s", role, via, after, fault)
+		replay := map[string]interface{}{"part": "failed-local-logout", "case": desc, "index": i}
+		st := rig.NewFlakyStore()
+		r, err := rig.NewStepRig(rig.StepCfg{Role: role, HeartBtInt: 30, Limits: &session.IntLimits{Min: 5, Max: 60}, Counter: st, Messages: st, SentinelBarrier: true, CloseTimeout: 200 * time.Millisecond,
+			AfterRun: func(h *simplefixgo.DefaultHandler, s *session.Session) {
+				if fault == "type-handler-refuses" {
+					h.HandleOutgoing("5", func(simplefixgo.SendingMessage) bool { return false })
+				}
+			}})
+		if err != nil {
+			c.Inconclusive("rig: " + err.Error())
+			return
+		}
+		defer r.Close()
+		p := rig.NewPeer()
+		if after == "after-a-logout-exchange" {
+			if res := r.Inbound(p.Logon(30, "0")); !res.Logged {
+				return
+			}
+			// the peer logs out; with the refusing handler the answer cannot be sent either, the session is logged out all the same
+			if res := r.Inbound(p.Logout()); res.TimedOut || res.Logged {
+				return
+			}
+		} else if role == rig.Initiator {
+			_ = r.InitOuts // its Logon is out, no answer yet
+		}
+		if r.S.IsLogged() {
+			return
+		}
+		if fault == "counter-store-fails-once" {
+			atomic.StoreInt32(&st.FailNextOutgoingNumber, 1)
+		}
+		res := r.Do(func() error {
+			if via == "Stop" {
+				return r.S.Stop()
+			}
+			return r.S.Logout()
+		})
+		if res.TimedOut {
+			c.Inconclusive("watchdog: " + desc)
+			return
+		}
+		c.Eval(vk.Hash64([]byte(desc)), true)
+		c.Count("failed_local_logouts_while_not_logged_on", 1)
+		if res.Logged || r.S.IsLogged() {
+			c.Violate("C06/logged-on-without-valid-logon/"+role.String()+"/after-a-failed-local-logout", desc+": IsLogged is true although no Logon was received since", replay)
+			return
+		}
+		// and the peer is still treated as not logged on
+		probe := r.Inbound(p.TestRequest("still-out"))
+		if probe.TimedOut || probe.RunEnded {
+			return
+		}
+		for _, o := range probe.Outs {
+			if o.Type == "0" {
+				c.Violate("C06/logged-on-without-valid-logon/"+role.String()+"/after-a-failed-local-logout", desc+": a TestRequest was answered with a Heartbeat although nobody logged on", replay)
 			}
 		}
 	})
